@@ -188,7 +188,22 @@ def run():
         # the VCF positions are on the doubled grid: replace the site positions used for POS
         c["ts"]["sites"] = [dict(pos=s["pos"], anc=s["anc"]) for s in c["ts"]["sites"]]
         cases.append(c)
-    # many-allele sites (>9 alleles) and position zero under a mask
+    # many-allele sites: 8, 9 (the most a VCF record can hold) and 10 alleles (must raise), with and without an isolated (missing) sample
+    for i in range(60 if QUICK else 3000):
+        nl = 11
+        iso = rng.random() < 0.6
+        N = nl + 1 + (1 if iso else 0)
+        root = nl
+        times = [0] * nl + [1] + ([0] if iso else [])
+        a = dict(L=2, time=times, flags=[1] * nl + [0] + ([1] if iso else []),
+                 edges=[dict(left=0, right=2, parent=root, child=c_) for c_ in range(nl)], sites=[dict(pos=rng.randrange(2), anc=0)], muts=[])
+        k = rng.choice([7, 8, 8, 9])          # number of distinct derived alleles -> 8, 9, 9, 10 alleles
+        toks = rng.sample([1, 2, 3, 7, 8, 9, 10, 11, 12, 13, 14], k)
+        for j, tk in enumerate(toks):
+            a["muts"].append(dict(site=0, node=j, der=tk, parent=-1, time=-1))
+        c = run_case(a, rng)
+        c["ts"]["sites"] = [dict(pos=s_["pos"], anc=s_["anc"]) for s_ in c["ts"]["sites"]]
+        cases.append(c)
     corrupted = []
     for c in cases:
         if len(corrupted) >= 8:
